@@ -415,6 +415,9 @@ func escOf(text string) string {
 
 func oracleSendError(c *Ctx, sc *SmtpScenario, run *SmtpRun) {
 	c.rep.OracleChecked++
+	for _, p := range run.APIProblems {
+		c.Violate("c20-accessor", p, sc)
+	}
 	if run.Stage == "dial" || run.CheckErr != nil || run.Panic != nil {
 		return
 	}
